@@ -189,11 +189,69 @@ def r2_blocks(program, folder, rep, sites, ffl):
     nb = sites["_send_ffs"].args[1]
     node = ffl.cfg.node_containing(sites["_send_ffs"])
     ffl.positive.add("self.scp_data_length")
-    cnt = ffl.sym(nb, node)
     L = ffl.sym(parse_expr("len(aplx_data)"), node)
     D = Poly.atom("self.scp_data_length")
-    ok = ffl.prove(node, [lt(D * (cnt - 1), L), le(L, D * cnt)],
-                   extra=[lt(0, L)], use_facts=False)
+
+    def sym_t(t):
+        e_ = reify(plain(t))
+        for n_ in ast.walk(e_):
+            for c_ in ast.iter_child_nodes(n_):
+                c_._parent = n_
+        ast.fix_missing_locations(e_)
+        return ffl.sym(e_, node)
+    # the count as a value term; when it is settled by a test (quotient,
+    # plus one if there is a remainder) the proof is made case by case
+    TB = Terms(fn)
+    tnode = TB.cfg.node_containing(sites["_send_ffs"])
+    whole = TB.term(nb, tnode)
+    volatile = ("mu", "phi", "rec", "opaque")
+    cases = None
+    if not any(st[0] in volatile for st in subterms(whole)):
+        cases = [([], whole)]
+    else:
+        for a in TB.cfg.nodes:
+            if a.kind != "assume" or not a.polarity or \
+                    not TB.cfg.reaches(a, tnode):
+                continue
+            c, pol = TB.cond(a.ast, a, True)
+            if any(st[0] in volatile for st in subterms(c)):
+                continue
+            m_ = c[0] == "cmp" and c[1] in ("Eq", "NotEq") and \
+                ("const", 0) in (c[2], c[3])
+            if not m_:
+                continue
+            X = c[3] if c[2] == ("const", 0) else c[2]
+            if not (X[0] == "binop" and X[1] == "Mod"):
+                continue
+            outs = []
+            for v in (True, False):
+                H = TB.under((c, v))
+                tv = H.term(nb, tnode)
+                if any(st[0] in volatile for st in subterms(tv)):
+                    break
+                nonzero = (c[1] == "NotEq") == v
+                Xp = sym_t(X)
+                outs.append(([le(1, Xp)] if nonzero else [eq(Xp, 0)], tv))
+            else:
+                cases = outs
+                break
+    direct = None
+    if cases is None:
+        # read the expression as the flow analysis sees it
+        direct = ffl.sym(nb, node)
+        import re as _re
+        if any(_re.match(r"^[A-Za-z_][\w.]*[@#]\d+$", a_)
+               for m_ in direct.t for a_ in m_):
+            raise AnalysisError("flood_fill_aplx: the number of blocks "
+                                "announced (%r) is a merged value these "
+                                "rules cannot split into cases" % (direct,))
+        cases = [([], None)]
+    ok = True
+    cnt = None
+    for extra_, tv in cases:
+        cnt = direct if tv is None else sym_t(tv)
+        ok = ok and ffl.prove(node, [lt(D * (cnt - 1), L), le(L, D * cnt)],
+                              extra=[lt(0, L)] + extra_, use_facts=False)
     rep.check(ok, "C09-R2", inst, "announced block count = ceil(len(binary) "
               "/ scp_data_length)", construct="announced count %r" % (cnt,),
               node=nb,
@@ -592,6 +650,10 @@ def r4_retry(program, rep):
         st3 = [x for x in stores(T) if x[2] == D3]
         chip_l = loop_of(st2[0][1]) if st2 else None
         app_l = loop_of(st3[0][1]) if st3 else None
+        if n1 is None and S1[0] in ("setcomp", "listcomp") and st2:
+            # a comprehension is a fresh collection wherever it is evaluated:
+            # here, in the statement that files it under the chip
+            n1 = st2[0][1]
         s1 = n1 is not None and chip_l is not None and _inside(n1, chip_l)
         s2 = n2 is not None and app_l is not None and _inside(n2, app_l) \
             and not _inside(n2, chip_l)
@@ -658,9 +720,19 @@ def r4_retry(program, rep):
                                    (EMPTY, plain(args[0])))) and \
                 len(f) == 1
             UNL_after = args[0]
-    rep.check(okr, "C09-R4", inst, "SpiNNakerLoadingError(unloaded) is "
-              "raised iff something is still unloaded after the loop",
-              construct="loading error", node=fn)
+    in_loop = [r for r in raises_of(fn)
+               if raise_name(r) == "SpiNNakerLoadingError" and _inside(r, w)]
+    restructured = UNL_after is None and bool(in_loop)
+    if restructured:
+        # the bail-out sits inside the retry loop: which exits of the loop
+        # mean 'everything loaded' is a path question not read here
+        deferred = deferred or (
+            "load_application: SpiNNakerLoadingError is raised inside the "
+            "retry loop; that form of the bail-out is not analysed")
+    else:
+        rep.check(okr, "C09-R4", inst, "SpiNNakerLoadingError(unloaded) is "
+                  "raised iff something is still unloaded after the loop",
+                  construct="loading error", node=fn)
     ss = [c for c in ast.walk(fn) if isinstance(c, ast.Call) and
           call_name(c)[0] == "send_signal"]
     oks = len(ss) == 1 and not _inside(ss[0], w)
@@ -677,10 +749,11 @@ def r4_retry(program, rep):
                            (EMPTY, plain(UNL_after))))
         oks = sargs == [("const", "start"), APP] and \
             (kw("wait"), False) in f and empty_known and len(f) == 2
-    rep.check(oks, "C09-R4", inst, "the start signal is sent, under the "
-              "caller's app id, iff not asked to wait and only after "
-              "everything was found loaded", construct="start signal",
-              node=fn)
+    if not restructured:
+        rep.check(oks, "C09-R4", inst, "the start signal is sent, under the "
+                  "caller's app id, iff not asked to wait and only after "
+                  "everything was found loaded", construct="start signal",
+                  node=fn)
     if deferred:
         raise AnalysisError(deferred)
     rep.floor("C09-R4", 9)
